@@ -24,7 +24,7 @@ for c, io, a in zip(cases, ios, ans):
     if mm:
         if prop.known(c, io, a, mm, [f for f in core.load_findings() if f.get("status") == "open"]):
             continue
-        key = (mm["kind"], tuple(mm["differs"]), (io.get("msg") or "")[:60], json.dumps(a.get("lib", {}).get("err", "")))
+        key = (mm["kind"], tuple(mm["differs"]), (io.get("msg") or "")[:60], json.dumps(a.get("lib", {}).get("err", "") if isinstance(a.get("lib"), dict) else "") + json.dumps(mm.get("detail", ""))[:150])
         groups[key].append((c, io, a, mm))
 print(len(cases), "cases;", sum(len(v) for v in groups.values()), "disagreements in", len(groups), "classes")
 for k, v in sorted(groups.items(), key=lambda kv: -len(kv[1])):
